@@ -38,7 +38,7 @@ ASSUMPTIONS = ["assembled quantities compared with |got-ref| <= 1e-8*max(1,|ref|
 QUICK_JOBS = 16
 MIN_MONITORS = {"*": {"D.vs_ref": 2, "F.vs_ref": 2, "F.symmetric": 2, "formalisms.D": 1, "formalisms.F": 1,
                       "formalisms.reconstruction": 1, "formalisms.mapped": 1, "factory.formalism": 1, "blocks.order": 1,
-                      "operated.vs_ref": 1, "mapped.vs_ref": 1, "DF.after_solve": 1, "dataset_reused.other_objects": 20, "dataset_derived.after_w_tilde": 20}}
+                      "operated.vs_ref": 1, "mapped.vs_ref": 1, "DF.after_solve": 1, "dataset_reused.other_objects": 20, "dataset_derived.after_w_tilde": 20, "dataset_interface.changed_data": 20}}
 RT = 1e-8
 
 
@@ -223,6 +223,30 @@ def run_case(ctx, i):
                 if ok:
                     ctx.check(relclose(DF[0], Dref2, RT) and relclose(DF[1], Fref2, RT), "dataset_derived.after_w_tilde", derived_by=how,
                               formalism="w_tilde" if use_w else "mapping", objects_on_derived=desc2, psf_of_derived=k2, got_F=DF[1], expected_F=Fref2, **W)
+    # the dataset handed over through DatasetInterface with CHANGED data (a model image subtracted) and the noise map, grids,
+    # convolver and w-tilde tables of the original imaging dataset: D is B^T N^-1 d for the data that was passed
+    if i % 3 == 2:
+        n_ = int((~case["m"]).sum())
+        d_new = case["d"][~case["m"]] - (0.3 + rng.random(n_)) * float(np.abs(case["d"]).max())
+        case3 = dict(case)
+        dn = np.zeros(case["m"].shape)
+        dn[~case["m"]] = d_new
+        case3["d"] = dn
+        Bi, Drefi, Frefi, _ = reference(case3, objs, diag)
+        got_i = {}
+        for use_w in (True, False):
+            st = aa.SettingsInversion(use_w_tilde=use_w, use_positive_only_solver=False, no_regularization_add_to_curvature_diag_value=diag)
+
+            def via_interface():
+                ds_ = case["ds"]
+                di = aa.DatasetInterface(data=aa.Array2D(values=d_new.copy(), mask=case["mask"]), noise_map=ds_.noise_map, grids=ds_.grids,
+                                         convolver=ds_.convolver, w_tilde=ds_.w_tilde)
+                v = aa.Inversion(dataset=di, linear_obj_list=objs, settings=st)
+                return _np(v.data_vector).copy(), _np(v.curvature_matrix).copy()
+            ok, DF = ctx.guarded("dataset_interface.changed_data", via_interface)
+            if ok:
+                ctx.check(relclose(DF[0], Drefi, RT) and relclose(DF[1], Frefi, RT), "dataset_interface.changed_data", formalism="w_tilde" if use_w else "mapping",
+                          got_D=DF[0], expected_D=Drefi, D_of_the_original_data=Dref, **W)
     k = case["k"]
     cls = ["kernel:%s" % case["kernel_kind"], "kshape:%dx%d" % k.shape, "data:%s" % case["data_kind"], "nobj:%d" % len(objs),
            "objs:" + "+".join(d["kind"] for d in desc)]
